@@ -679,6 +679,8 @@ def run(ctx: Ctx):
     # Is(...) parts below lists / tuples / dict displays / constructor calls nested in each other vs Model/Nest.v
     from .. import nestassign as na
     na.check_part(ctx, 400 if not ctx.thorough else 5000, "C10", unm_choices=(0.25, 0.4))
+    # snapshots that are evaluated but never compared, nested values: what update does vs Model/Undecided.v
+    na.check_never(ctx, 200 if not ctx.thorough else 2500, "C10")
 
 
 def replay(ctx: Ctx, data):
@@ -688,6 +690,9 @@ def replay(ctx: Ctx, data):
     if isinstance(data.get("case"), dict) and data["case"].get("kind") == "nest":
         from .. import nestassign as na
         return na.replay_case(data["case"])
+    if isinstance(data.get("case"), dict) and data["case"].get("kind") == "never":
+        from .. import nestassign as na
+        return na.replay_never(data["case"])
     if isinstance(data.get("case"), dict) and data["case"].get("kind") in ("dict", "dict-orders"):
         from .. import dictassign as da
         return da.replay_case(data["case"])
